@@ -18,7 +18,7 @@
 (* which edge, which pair, which zero pattern, which rows are judged is    *)
 (* decided here.                                                           *)
 (***************************************************************************)
-EXTENDS EdgeOps, Json, IOUtils, TLCExt
+EXTENDS EdgeOps, Aggregate, Json, IOUtils, TLCExt
 
 Recs  == ndJsonDeserialize(IOEnv.REC_FILE)
 Mode  == IOEnv.MODE
@@ -62,19 +62,28 @@ Match(got, exp, exact) ==
     /\ Bit(got[3], 1)
     /\ (exact => Bit(got[3], 0))
 
-ShapeOK(r, e, lead, dims) ==
-    /\ e.dims = dims \o << "n_edge" >>
-    /\ e.shape = lead \o << Len(r.edges) >>
+\* layout of the record: the grid dimension sits at 0-based position r.pos among the dims, the other dims have
+\* the sizes r.lead / names r.lead_dims; the edge dimension must take that position in the result
+Lay(r) == [ pos |-> r.pos, lead |-> r.lead ]
+ShapeOK(r, e) ==
+    /\ e.dims = InsAt(r.lead_dims, r.pos, "n_edge")
+    /\ e.shape = LayoutShape(Lay(r), Len(r.edges))
     /\ e.cls = "UxDataArray"
     /\ e.same
 
-\* values: one entry per flattened leading index and edge
+\* values: e.flat is the result in its own C order; canonical row (C-order index of the other dims) and edge k are
+\* looked up at Aggregate.FlatOffset (proved to be the C-order offset in AggLayout.tla)
 ValuesOK(r, e, rows, Exp(_, _), exact) ==
-    /\ Len(e.v) = Len(rows)
-    /\ \A row \in 1..Len(rows) :
-         /\ row <= Len(e.v) => Len(e.v[row]) = Len(r.edges)
-         /\ \A k \in 1..Len(r.edges) :
-              (row <= Len(e.v) /\ k <= Len(e.v[row])) => Match(e.v[row][k], Exp(row, k), exact)
+    LET n == Len(r.edges)
+        l == Lay(r)
+    IN /\ Len(rows) = NRows(l)
+       /\ Len(e.flat) = Len(rows) * n
+       /\ \A row \in 1..Len(rows) : \A k \in 1..n :
+            LET o == FlatOffset(l, n, row - 1, k - 1) + 1
+            IN o <= Len(e.flat) => Match(e.flat[o], Exp(row, k), exact)
+\* a per-entry boolean of the result (exact zero) at canonical row / edge
+FlagAt(r, zf, row, k) == LET o == FlatOffset(Lay(r), Len(r.edges), row - 1, k - 1) + 1
+                         IN o <= Len(zf) /\ zf[o]
 
 Clauses(r) ==
     LET m == r.mesh
@@ -84,7 +93,7 @@ Clauses(r) ==
         nodeExp(row, k) == NodeDiff(E[k], r.xrows[row], D)
         faceExp(row, k) == FaceDiff(m, E[k], r.yrows[row], D)
         defined(row)    == NormDefined(m, E, r.yrows[row])
-        ok(f)           == Has(r, f) /\ Has(r[f], "v")
+        ok(f)           == Has(r, f) /\ Has(r[f], "flat")
     IN
     [ EdgeFacePairs  |-> Has(r, "edge_faces") =>
                            /\ Len(r.edge_faces) = Len(E)
@@ -112,20 +121,19 @@ Clauses(r) ==
       GradValue      |-> (ok("grad") /\ ~deg) => ValuesOK(r, r.grad, r.yrows, faceExp, FALSE),
       GradZeroOnBoundary |->
                          (ok("grad") /\ ~deg) => \A row \in 1..Len(r.yrows) : \A k \in 1..Len(E) :
-                            (row <= Len(r.grad.v) /\ k <= Len(r.grad.v[row]) /\ IsBoundaryRow(m, E[k]))
-                               => r.grad.v[row][k][1] = 0 /\ Bit(r.grad.v[row][k][3], 0),
+                            IsBoundaryRow(m, E[k]) =>
+                               LET o == FlatOffset(Lay(r), Len(E), row - 1, k - 1) + 1
+                               IN o <= Len(r.grad.flat) => r.grad.flat[o][1] = 0 /\ Bit(r.grad.flat[o][3], 0),
       NormUnit       |-> (ok("gradn") /\ ~deg) => \A row \in 1..Len(r.yrows) : defined(row) => r.gradn.unit[row],
       NormZeroPattern |-> (ok("gradn") /\ ~deg) => \A row \in 1..Len(r.yrows) : defined(row) =>
-                            \A k \in 1..Len(E) : r.gradn.zero[row][k] <=> GradIsZero(m, E[k], r.yrows[row]),
+                            \A k \in 1..Len(E) : FlagAt(r, r.gradn.zeroflat, row, k) <=> GradIsZero(m, E[k], r.yrows[row]),
       NormProportional |-> (ok("gradn") /\ ~deg) => \A row \in 1..Len(r.yrows) : defined(row) => r.gradn.prop[row],
       NormIndependent |-> (ok("gradn") /\ ~deg) => \A row \in 1..Len(r.yrows) : defined(row) => r.gradn.indep[row],
-      DiffIndependent |-> (ok("ndiff") => r.ndiff.indep) /\ (ok("fdiff") => r.fdiff.indep),
-      GradIndependent |-> (ok("grad") /\ ~deg) => r.grad.indep,
-      Shape_ndiff    |-> ok("ndiff") => ShapeOK(r, r.ndiff, r.lead, r.lead_dims),
-      Shape_fdiff    |-> ok("fdiff") => ShapeOK(r, r.fdiff, r.lead, r.lead_dims),
-      Shape_grad     |-> ok("grad")  => ShapeOK(r, r.grad, r.lead, r.lead_dims),
-      Shape_gradn    |-> ok("gradn") => ShapeOK(r, r.gradn, r.lead, r.lead_dims),
-      Accepts        |-> \A f \in { "ndiff", "fdiff", "grad", "gradn" } : Has(r, f) => Has(r[f], "v")
+      Shape_ndiff |-> ok("ndiff") => ShapeOK(r, r.ndiff),
+      Shape_fdiff |-> ok("fdiff") => ShapeOK(r, r.fdiff),
+      Shape_grad |-> ok("grad") => ShapeOK(r, r.grad),
+      Shape_gradn |-> ok("gradn") => ShapeOK(r, r.gradn),
+      Accepts        |-> \A f \in { "ndiff", "fdiff", "grad", "gradn" } : Has(r, f) => Has(r[f], "flat")
     ]
 
 \* MPAS dual of a PARTIAL mesh: the source describes open fans (faces with 1-2 nodes) and one-ended edges, so
@@ -137,7 +145,7 @@ DPClauses(r) ==
         two(k)  == PAD \notin Range(r.src_ef[k]) /\ Len(r.src_ef[k]) = 2
         fexp(row, k) == IF two(k) THEN << Abs(r.yrows[row][r.src_ef[k][1] + 1] - r.yrows[row][r.src_ef[k][2] + 1]), r.den >>
                         ELSE << 0, r.den >>
-        ok(f) == Has(r, f) /\ Has(r[f], "v")
+        ok(f) == Has(r, f) /\ Has(r[f], "flat")
     IN
     [ DualPartialPairs |-> /\ Len(E) = Len(r.src_en) /\ Len(r.edge_faces) = Len(r.src_ef)
                            /\ \A k \in 1..Len(E) : Range(E[k]) = Range(r.src_en[k])
@@ -147,9 +155,9 @@ DPClauses(r) ==
       DualPartialFaceDistances |-> Len(r.fd_ok) = Len(r.src_ef) /\ \A k \in 1..Len(r.src_ef) : two(k) => r.fd_ok[k],
       DualPartialFaceDiff |-> ok("fdiff") => ValuesOK(r, r.fdiff, r.yrows, fexp, TRUE),
       DualPartialGrad     |-> ok("grad")  => ValuesOK(r, r.grad, r.yrows, fexp, FALSE),
-      Shape_fdiff    |-> ok("fdiff") => ShapeOK(r, r.fdiff, r.lead, r.lead_dims),
-      Shape_grad     |-> ok("grad")  => ShapeOK(r, r.grad, r.lead, r.lead_dims),
-      Accepts        |-> \A f \in { "fdiff", "grad" } : Has(r, f) => Has(r[f], "v")
+      Shape_fdiff |-> ok("fdiff") => ShapeOK(r, r.fdiff),
+      Shape_grad |-> ok("grad") => ShapeOK(r, r.grad),
+      Accepts        |-> \A f \in { "fdiff", "grad" } : Has(r, f) => Has(r[f], "flat")
     ]
 
 Failed(r) == IF IsDP(r) THEN LET c == DPClauses(r) IN { k \in DOMAIN c : ~c[k] }
@@ -158,7 +166,7 @@ Failed(r) == IF IsDP(r) THEN LET c == DPClauses(r) IN { k \in DOMAIN c : ~c[k] }
 
 \* signature of a known defect shape: the whole array, not each leading index, has unit norm
 WholeArrayNorm(r) ==
-    /\ ~IsDP(r) /\ Has(r, "gradn") /\ Has(r.gradn, "v") /\ ~HasDegenerate(r)
+    /\ ~IsDP(r) /\ Has(r, "gradn") /\ Has(r.gradn, "flat") /\ ~HasDegenerate(r)
     /\ r.gradn.whole
     /\ Cardinality({ row \in 1..Len(r.yrows) : NormDefined(r.mesh, r.edges, r.yrows[row]) }) >= 2
 
@@ -167,6 +175,15 @@ DistancesSwapped(r) ==
     /\ Has(r, "nd_sw") /\ Has(r, "fd_sw") /\ Len(r.edges) > 0
     /\ \A k \in 1..Len(r.nd_sw) : r.nd_sw[k]
     /\ \A k \in 1..Len(r.fd_sw) : r.fd_sw[k]
+
+\* signature: the grid dimension is not last and every operator either raised or kept the grid dimension and
+\* relabelled the LAST dimension as n_edge (the computation ran along the last axis)
+GridDimOf(f) == IF f = "ndiff" THEN "n_node" ELSE "n_face"
+LastReplaced(r, f) == LET d == InsAt(r.lead_dims, r.pos, GridDimOf(f)) IN [ d EXCEPT ![Len(d)] = "n_edge" ]
+GridAxisNotLast(r) ==
+    /\ r.pos < Len(r.lead)
+    /\ \A f \in { "ndiff", "fdiff", "grad", "gradn" } \cap DOMAIN r :
+          Has(r[f], "err") \/ r[f].dims = LastReplaced(r, f)
 
 Init == i \in { -b : b \in 1..NBlocks }
 Next == /\ i < 0
@@ -179,6 +196,7 @@ Judge == i > 0 =>
                    IN /\ \A c \in f : PrintT(<<"V", i, c>>)
                       /\ (("NormUnit" \in f \/ "NormIndependent" \in f \/ "NormProportional" \in f) /\ WholeArrayNorm(r))
                             => PrintT(<<"S", i, "WholeArrayNorm">>)
+                      /\ ((f # {} /\ Has(r, "pos") /\ GridAxisNotLast(r)) => PrintT(<<"S", i, "GridAxisNotLast">>))
                       /\ (({ "NodeDistances", "FaceDistances" } \cap f # {} /\ DistancesSwapped(r))
                             => PrintT(<<"S", i, "DistancesSwapped">>))
 =============================================================================
